@@ -349,7 +349,7 @@ var stop func() bool
 
 func livenessPass(r *mc.Run, states []stateRec, cov map[string]any) {
 	const rLive = 8
-	type res struct{ silent, honest int }
+	type res struct{ silent, honest, usurp int }
 	out := make([]res, len(states))
 	stopTails := r.Expired
 	if PartFraction > 0 {
@@ -357,20 +357,26 @@ func livenessPass(r *mc.Run, states []stateRec, cov map[string]any) {
 	}
 	done := mc.ParallelFor(len(states), 0, stopTails, func(i int) {
 		nc, _ := ConfigByName(states[i].cfg)
-		for mode := 0; mode < 2; mode++ {
+		for mode := 0; mode < 3; mode++ {
 			_ = nc
+			if mode == 2 && (nc.Cfg.Byz < 0 || !states[i].w.Info().ByzElect) {
+				continue // the active-adversary tail differs from the honest one only where it holds an old election certificate
+			}
 			w, ok := states[i].w.Clone(), true
 			// a prefix in which an honest node already committed has its block: after GST the
 			// committed certificate is gossiped and adopted through the block path (C02's gate)
 			if !ok || w.Info().Terminal || len(w.DistinctCommits()) > 0 {
-				out[i] = res{0, 0}
+				out[i] = res{0, 0, 0}
 				return
 			}
 			n := w.Tail(mode, rLive)
-			if mode == 0 {
+			switch mode {
+			case 0:
 				out[i].silent = n
-			} else {
+			case 1:
 				out[i].honest = n
+			default:
+				out[i].usurp = n
 			}
 		}
 	})
@@ -382,7 +388,7 @@ func livenessPass(r *mc.Run, states []stateRec, cov map[string]any) {
 		if i >= done {
 			break
 		}
-		for m, n := range []int{o.silent, o.honest} {
+		for m, n := range []int{o.silent, o.honest, o.usurp} {
 			if n == 0 {
 				continue
 			}
@@ -393,7 +399,7 @@ func livenessPass(r *mc.Run, states []stateRec, cov map[string]any) {
 				for _, op := range states[i].path {
 					names = append(names, AllScenarios[op].String())
 				}
-				mode := []string{"byzantine-silent", "byzantine-honest"}[m]
+				mode := []string{"byzantine-silent", "byzantine-honest", "byzantine-usurps-with-replayed-election-certificate"}[m]
 				r.Violation("C15:no-commit-within-8-rounds:"+mode, fmt.Sprintf("config %s: after adversarial prefix %v, %d synchronous rounds (%s) did not commit", states[i].cfg, names, rLive, mode),
 					map[string]any{"config": states[i].cfg, "path": states[i].path, "mode": m, "scenarios": names})
 			} else if n > worst {
@@ -455,6 +461,7 @@ func replayMain(r *mc.Run, trace bool) {
 		Choices   []int  `json:"choices"`
 		DevRounds uint64 `json:"dev_rounds"`
 		Rounds    uint64 `json:"rounds"`
+		Mode      *int   `json:"mode"`
 	}
 	if err := r.LoadReplay(&rp); err != nil {
 		fmt.Println("cannot load replay:", err)
@@ -519,9 +526,25 @@ func replayMain(r *mc.Run, trace bool) {
 			cs = append(cs, fmt.Sprintf("n%d:%s", c.Node, c.BlockHash[:8]))
 		}
 		sort.Strings(cs)
-		outcomes[strings.Join(cs, ",")]++
+		okey := strings.Join(cs, ",")
 		if v := w.AgreementViol(rp.Config, rp.Path); v != nil && r.ID == "C01" {
 			r.OnViol(*v)
+		}
+		if r.ID != "C15" || rp.Mode == nil {
+			outcomes[okey]++
+		}
+		if r.ID == "C15" && rp.Mode != nil {
+			w.TraceOn = trace && i == 0
+			w.Trace = nil
+			n := w.Tail(*rp.Mode, 8)
+			if trace && i == 0 {
+				fmt.Println("---- tail")
+				fmt.Println(strings.Join(w.Trace, "\n"))
+			}
+			outcomes[okey+fmt.Sprintf(" tail commits after %d rounds", n)]++
+			if n < 0 && i == 0 {
+				r.Violation("C15:no-commit-within-8-rounds", fmt.Sprintf("config %s: replayed prefix %v, tail mode %d: 8 synchronous rounds did not commit", rp.Config, rp.Path, *rp.Mode), nil)
+			}
 		}
 	}
 	fmt.Println("replay outcomes (5 runs):", outcomes)
